@@ -8,6 +8,7 @@ import os
 from check import Result
 from vlib import dtcodec, gen
 from vlib.dtcodec import f2bits
+from vlib.lean import batch_nl
 
 META = {
     'level_text': 'Theorems for every float carrier with the laws of Spec.C02.WireLaws, every well-formed datatype tree of any depth '
@@ -23,15 +24,26 @@ META = {
                   'from_string, and what setParameterFromString sends is strict JSON of the kind the node\'s type prescribes which '
                   'the node imports to a value equal to the one the text was read as — also when a re-read float left the limits), '
                   'client_cache_string_write (the whole path: node export -> updateValue -> cache entry holding exactly v -> '
-                  'str -> setParameterFromString -> node import; under the grid law at the scaled limits, LimitsOnGrid). '
+                  'str -> setParameterFromString -> node import; under the grid law at the scaled limits, LimitsOnGrid), '
+                  'client_command_roundtrip (execCommand: the argument the client exports with the rebuilt argument type is strict '
+                  'JSON of the kind the node\'s type prescribes and is imported by the node as the very value; the result of a '
+                  'command answering its argument comes back to the caller as the very value). The base64 law is proved for the '
+                  'model\'s encoder / strict decoder (base64_roundtrip), it is no hypothesis of the theorems any more. '
                   'The models of export_value / format_value / to_string / from_string / CacheItem / updateValue / setParameter / '
                   'setParameterFromString are tied to frappy/datatypes.py and frappy/client/__init__.py by a correspondence run on '
                   'the real classes (json.dumps with the settings of encode_msg_frame, json.loads, a SecopClient whose tables are '
-                  'built by the real _init_descriptive_data (get_datatype) and whose request() records the line), and the Lean '
-                  'monitors (kindOKB, strictB, pyEq, sameButFloatsB, textEq) judge every output of the implementation.',
+                  'built by the real _init_descriptive_data (get_datatype) and whose request() records the line and, for a do '
+                  'request, plays the node\'s part of a command answering its argument), and the Lean monitors (kindOKB, strictB, '
+                  'pyEq, sameButFloatsB, textEq) judge every output of the implementation. Values include maximal containers, long '
+                  'strings / blobs / enum names (text forms and JSON lines up to > 100 000 characters) and string contents from every '
+                  'class of Unicode characters a text layer may treat specially (normalization forms, case mappings, separators, '
+                  'format / private-use / unassigned code points, combining sequences), also as struct member names.',
     'level_note': 'Trusted: Lean kernel + axioms propext/Classical.choice/Quot.sound; the laws of WireLaws for binary64 (proved for the '
-                  'exact carrier Rat); one law per library leaf (TextLib.Lawful, B64Law, JsonText.loads_dumps), each tested on every '
-                  'leaf drawn and all satisfied by a concrete library over Rat (Lemmas/TextLibRat.lean); the float format laws speak '
+                  'exact carrier Rat); one law per library leaf (TextLib.Lawful, JsonText.loads_dumps), each tested on every '
+                  'leaf drawn (the wire law on the real encode_msg_frame / decode_msg pair, value by value: types, float bits, code '
+                  'points, member order); TextLib.Lawful is satisfied by a concrete library over Rat (Lemmas/TextLibRat.lean), so '
+                  'is JsonText.loads_dumps (exJsonText, Lemmas/JsonTextRat.lean: a prefix-free code and its inverse); that the model\'s Base64.encode / decode? agree with CPython\'s base64 '
+                  'is tested per blob, their round trip is proved; the float format laws speak '
                   'of the library and float arithmetic only (FloatRange.__call__ / ScaledInteger.__call__ are proved from the model); '
                   'the printing/parsing of brackets and commas (ast.parse) is not modelled — texts are compared as syntax trees.',
     'trusted': [
@@ -44,8 +56,9 @@ META = {
         "round(literal_eval(fmtstr % x) / scale) * scale, and y is again reproduced by the grid (fmtScaled); the instances where "
         "this fails ('%.1f' % -0.04 == '-0.0' reads back as 0.0 which prints '0.0'; scaled leaves with a grid finer than the double "
         "spacing) are decided per case in Lean (fmtLawB) and counted, not judged; ast.literal_eval(repr(s)) == s for str, bytes, "
-        'int, bool; b64decode(b64encode(b), validate=True) == b (B64Law); json.loads(json.dumps(j)) == j for strict j '
-        '(JsonText.loads_dumps)',
+        'int, bool; json.loads(json.dumps(j)) == j for strict j through encode_msg_frame / decode_msg (JsonText.loads_dumps: '
+        'tested on every line of every case, incl. strings that are not stable under the Unicode normalization forms); the '
+        'model\'s base64 functions are CPython\'s (tested per blob leaf; their round trip is proved, Lemmas/Base64RT.lean)',
         'ast.parse as the reader of bracket structure: the observation compares syntax trees, (x) vs (x,) is decided by ast',
         'FrappyDrive/C02.lean: the tagged-token TextLib instance and the fmt read-back table sent by the harness (a float text is '
         'identified with the float it reads back as)',
@@ -55,8 +68,10 @@ META = {
         'frappy.lib.enum.Enum (dict keyed by names and values)',
         'frappy.properties.HasProperties.exportProperties / get_datatype beyond what values can see (clientOf; the full '
         'description round trip is C03)',
-        'SecopClient queueing/threads: request() is replaced by a recorder that calls the real encode_msg_frame; the error '
-        'branch of CacheItem.__str__ (readerror) is modelled but not exercised',
+        'SecopClient queueing/threads: request() is replaced by a recorder that calls the real encode_msg_frame (and '
+        'decode_msg, import_value, export_value for the node\'s part of a do request); Command.do / Dispatcher._execute_command '
+        'themselves are not run',
+        'CacheItem.formatted() (the display form with unit, not meant to be read back) is not observed',
     ],
     'assumptions': ['generalConfig.lazy_number_validation is False (default)',
                     'values are canonical (what validation returns): no -0.0 leaf for the text clauses',
@@ -102,13 +117,70 @@ def sub_dt(dt, pos):
     return dt
 
 
-def build_dt(tree, fmts):
-    """real datatype from the tree, with the format strings of the case set on its float leaves"""
-    dt = dtcodec.tree_to_dt(tree)
+def variant_dt(tree, cls, pos=()):
+    """the datatype of the tree, built with the convenience classes of frappy.datatypes where the case names one for a
+    position (`cls`): TextType for a string, LimitsType for a tuple of two equal numeric members, StatusType for a tuple
+    (enum, string) - values, exported forms and text forms of these are those of their base classes (the model's)"""
+    from frappy.datatypes import ArrayOf, TupleOf, StructOf, TextType, LimitsType, StatusType
+    from frappy.lib.enum import Enum
+    t = tree['t']
+    c = cls.get(pos_key(pos))
+    if t == 'string' and c == 'text':
+        return TextType(tree['max'])
+    if t == 'tuple' and c == 'limits':
+        return LimitsType(variant_dt(tree['elems'][0], cls, pos + (0,)))
+    if t == 'tuple' and c == 'status':
+        return StatusType(Enum('Status', **{k: v for k, v in tree['elems'][0]['members']}))
+    if t == 'array':
+        return ArrayOf(variant_dt(tree['elem'], cls, pos + (0,)), tree['min'], tree['max'])
+    if t == 'tuple':
+        return TupleOf(*[variant_dt(e, cls, pos + (i,)) for i, e in enumerate(tree['elems'])])
+    if t == 'struct':
+        dt = StructOf(optional=list(tree['optional']), **{k: variant_dt(m, cls, pos + (i,)) for i, (k, m) in enumerate(tree['members'])})
+        if tree.get('client'):
+            dt.client = True
+        return dt
+    return dtcodec.tree_to_dt(tree)
+
+
+def gen_variants(rng, tree, pos=()):
+    """positions of the tree where a convenience class of frappy.datatypes fits, each taken with probability 1/2"""
+    t = tree['t']
+    out = {}
+    if t == 'string' and tree['min'] == 0 and not tree['utf8']:
+        if rng.random() < 0.5:
+            out[pos_key(pos)] = 'text'
+    elif t == 'tuple':
+        es = tree['elems']
+        if len(es) == 2 and es[0] == es[1] and es[0]['t'] in ('double', 'int', 'scaled') and rng.random() < 0.5:
+            out[pos_key(pos)] = 'limits'
+            out.update(gen_variants(rng, es[0], pos + (0,)))
+        elif len(es) == 2 and es[0]['t'] == 'enum' and es[1] == {'t': 'string', 'min': 0, 'max': gen.UNLIMITED, 'utf8': False} \
+                and all(n.isidentifier() for n, _ in es[0]['members']) and rng.random() < 0.5:
+            out[pos_key(pos)] = 'status'
+        else:
+            for i, e in enumerate(es):
+                out.update(gen_variants(rng, e, pos + (i,)))
+    elif t == 'array':
+        out.update(gen_variants(rng, tree['elem'], pos + (0,)))
+    elif t == 'struct':
+        for i, (_, m) in enumerate(tree['members']):
+            out.update(gen_variants(rng, m, pos + (i,)))
+    return out
+
+
+def build_dt(tree, fmts, units=None, cls=None):
+    """real datatype from the tree, with the format strings (and units) of the case set on its float leaves"""
+    dt = variant_dt(tree, cls) if cls else dtcodec.tree_to_dt(tree)
+    if cls and dt.export_datatype() != dtcodec.tree_to_dt(tree).export_datatype():
+        raise RuntimeError('variant classes changed the description: %r' % (cls,))
     for pos, leaf in leaf_paths(tree):
         f = fmts.get(pos_key(pos))
         if f and leaf['t'] in ('double', 'scaled'):
             sub_dt(dt, pos).set_properties(fmtstr=f)
+        u = (units or {}).get(pos_key(pos))
+        if u and leaf['t'] in ('double', 'scaled'):
+            sub_dt(dt, pos).set_properties(unit=u)
     return dt
 
 
@@ -122,7 +194,9 @@ def describe_node(dt):
     """what a `describe` request would answer for a node with one module `m` holding one custom parameter `_par` of this
     datatype (the structure `SecNode.get_descriptive_data` produces), after its JSON round trip"""
     return json.loads(json.dumps({
-        'modules': {'m': {'accessibles': {'_par': {'datainfo': dt.export_datatype(), 'description': 'p', 'readonly': False}},
+        'modules': {'m': {'accessibles': {'_par': {'datainfo': dt.export_datatype(), 'description': 'p', 'readonly': False},
+                                          '_cmd': {'datainfo': {'type': 'command', 'argument': dt.export_datatype(),
+                                                                'result': dt.export_datatype()}, 'description': 'c'}},
                           'description': 'm', 'interface_classes': ['Writable'], 'features': []}},
         'equipment_id': 'c02', 'firmware': 'x', 'description': 'x'}))
 
@@ -136,7 +210,10 @@ class Recorder:
         from frappy.client import SecopClient, NullLogger
         from frappy.protocol.interface import encode_msg_frame
 
+        from frappy.protocol.interface import decode_msg
+        from frappy.errors import make_secop_error
         sent = self.sent = []
+        node_args = self.node_args = []
 
         class Client(SecopClient):
             def connect(self, try_period=0):
@@ -146,7 +223,19 @@ class Recorder:
                 pass
 
             def request(self, action, ident=None, data=None):
-                sent.append(encode_msg_frame(action, ident, data))
+                frame = encode_msg_frame(action, ident, data)
+                sent.append(frame)
+                if action == 'do':
+                    # the node's part of a command that answers its argument: Command.do imports the transported
+                    # argument, Dispatcher._execute_command exports the result; the reply travels as a line
+                    arg = decode_msg(frame)[2]
+                    try:
+                        a = dt.import_value(arg)
+                    except Exception as e:
+                        node_args.append(e)
+                        raise make_secop_error(getattr(e, 'name', 'InternalError'), str(e)) from None
+                    node_args.append(a)
+                    return decode_msg(encode_msg_frame('done', ident, [dt.export_value(a), {}]))
                 return ('changed', ident, [data, {}])
 
         c = self.client = Client('recorder', NullLogger)
@@ -331,12 +420,13 @@ def _reject_constant(name):
     raise ValueError('non-strict JSON constant ' + name)
 
 
-def run_impl(tree, fmts, v):
+def run_impl(tree, fmts, v, units=None, cls=None):
     """every call of one case; returns (impl outcomes, fmt table, library test failures)"""
     from frappy.protocol.interface import encode_msg_frame, decode_msg
-    dt = build_dt(tree, fmts)
+    dt = build_dt(tree, fmts, units, cls)
     impl = dict.fromkeys(KEYS)
     libfail = []
+    stats = {}
     floats = list(float_leaves(tree, v))
     try:
         rec = Recorder(dt=dt)                     # the client's own tables, built from the description
@@ -359,7 +449,13 @@ def run_impl(tree, fmts, v):
                 json.loads(text, parse_constant=_reject_constant)
             except ValueError:
                 libfail.append('strict-json-parser refuses the emitted text')
-            data = decode_msg(frame)[2][0]
+            stats['line'] = len(frame)
+            action, ident, (data, qual) = decode_msg(frame)
+            # JsonText.loads_dumps, the wire law the theorems assume, on the real pair encode_msg_frame / decode_msg: the
+            # JSON value that arrives is the one that was sent (same types, floats bit by bit, strings code point by code
+            # point, members in the same order), and so are action, specifier and qualifiers
+            if not same_json(data, exp) or (action, ident, qual) != ('update', 'm:_par', {}):
+                libfail.append('wire law JsonText.loads_dumps: decode_msg(encode_msg_frame(j)) != j for j = %.300r' % (exp,))
             impl['exp'] = {'ok': enc_json(data)}           # what arrives: the output of json.loads
         except Exception as e:
             impl['exp'] = {'err': 'dumps:' + type(e).__name__}
@@ -370,6 +466,7 @@ def run_impl(tree, fmts, v):
     # ---- text on the node's datatype ----
     impl['text'], text = _out(lambda: dt.to_string(v), enc_text(tree))
     if text is not None:
+        stats['text'] = len(text)
         impl['back'], back = _out(lambda: dt.from_string(text), dtcodec.py_to_json)
         if 'ok' in impl['back']:
             floats += list(float_leaves(tree, back))
@@ -417,6 +514,48 @@ def run_impl(tree, fmts, v):
             impl['vsent'], vsent = _out(send_value, enc_json)
             if 'ok' in impl['vsent']:
                 impl['vnode'], _ = _out(lambda: dt.import_value(vsent), dtcodec.py_to_json)
+
+            # ---- the command call: execCommand with the cached value as argument, the node's command answers its argument
+            def call():
+                n = len(rec.sent)
+                del rec.node_args[:]
+                try:
+                    rec.result = ('ok', rec.client.execCommand('m', 'cmd', item.value)[0])
+                except Exception as e:
+                    if len(rec.sent) == n:
+                        raise                     # failed before anything was sent (export_value of the argument)
+                    rec.result = ('err', e)
+                if len(rec.sent) != n + 1:
+                    raise RuntimeError('no frame')
+                action, ident, sent = decode_msg(rec.sent[-1])
+                if (action, ident) != ('do', 'm:_cmd'):
+                    raise RuntimeError('unexpected frame')
+                return sent
+            impl['xsent'], xsent = _out(call, enc_json)
+            if 'ok' in impl['xsent']:
+                def node_arg():
+                    a = rec.node_args[-1]
+                    if isinstance(a, Exception):
+                        raise a
+                    return a
+
+                def cmd_result():
+                    if rec.result[0] == 'err':
+                        raise rec.result[1]
+                    return rec.result[1]
+                impl['xnode'], _ = _out(node_arg, dtcodec.py_to_json)
+                if 'ok' in impl['xnode']:
+                    impl['xres'], _ = _out(cmd_result, dtcodec.py_to_json)
+            # ---- an error update: the cache entry shows the error, not a value (the `readerror` branch of CacheItem.__str__)
+            from frappy.errors import HardwareError
+            exc = HardwareError('sensor %r broken' % (tree['t'],))
+            stats_rerr = repr(exc)
+
+            def error_text():
+                rec.client.updateValue('m', 'par', None, 2.0, exc)
+                return str(rec.client.cache['m', 'par'])
+            impl['etext'], _ = _out(error_text, lambda s: {'bare': s})
+            impl['rerr'] = stats_rerr
     # ---- the library leaves: the fmt read-back table, and the laws tested on the leaves drawn ----
     table, seen = [], set()
     leafdts = {}
@@ -457,13 +596,32 @@ def run_impl(tree, fmts, v):
             libfail.append('repr law on %r' % (s,))
         if isinstance(s, bytes) and base64.b64decode(base64.b64encode(s).decode('ascii'), validate=True) != s:
             libfail.append('base64 law on %r' % (s,))
-    return impl, table, libfail
+    return impl, table, libfail, stats
+
+
+def same_json(a, b):
+    """identity of two JSON values as Python objects: same types (an int is not a float, a bool is not an int), floats
+    bit by bit, strings code point by code point, object members in the same order"""
+    if type(a) is not type(b):
+        return False
+    if isinstance(a, float):
+        return f2bits(a) == f2bits(b)
+    if isinstance(a, list):
+        return len(a) == len(b) and all(same_json(x, y) for x, y in zip(a, b))
+    if isinstance(a, dict):
+        return list(a) == list(b) and all(same_json(a[k], b[k]) for k in a)
+    return a == b
+
+
+LAST_STATS = {}
 
 
 def eval_case(case):
     v = dtcodec.json_to_py(case['v'])
-    impl, table, libfail = run_impl(case['tree'], case.get('fmts', {}), v)
-    req = {'p': 'C02', 'k': 'case', 'dt': case['tree'], 'v': case['v'], 'fmt': table, 'impl': impl}
+    impl, table, libfail, stats = run_impl(case['tree'], case.get('fmts', {}), v, case.get('units'), case.get('cls'))
+    LAST_STATS.clear()
+    LAST_STATS.update(stats)
+    req = {'p': 'C02', 'k': 'case', 'dt': case['tree'], 'v': case['v'], 'fmt': table, 'impl': impl, 'rerr': impl.pop('rerr', None)}
     return req, impl, libfail
 
 
@@ -477,10 +635,10 @@ def canon_out(o):
 
 
 KEYS = ['exp', 'node', 'client', 'cdt', 'text', 'back', 'again', 'cval', 'ctext', 'cback', 'cagain', 'sent', 'cnode', 'vsent',
-        'vnode']
+        'vnode', 'xsent', 'xnode', 'xres', 'etext']
 
 
-CLIENT_KEYS = ['client', 'cdt', 'cval', 'ctext', 'cback', 'cagain', 'sent', 'cnode', 'vsent', 'vnode']
+CLIENT_KEYS = ['client', 'cdt', 'cval', 'ctext', 'cback', 'cagain', 'sent', 'cnode', 'vsent', 'vnode', 'xsent', 'xnode', 'xres', 'etext']
 
 
 def obs(d):
@@ -523,6 +681,16 @@ def blank_names(rng, tree):
     if t == 'struct':
         return dict(tree, members=[[k, blank_names(rng, m)] for k, m in tree['members']])
     return tree
+
+
+UNITS = ['K', '%', 'mm/s', 'T', 'mbar', 'm^2', '1', 'deg C', '\u03a9', '\u2126', '\u00b5m', "'", '"', ', 5', '] #', '$']
+
+
+def gen_units(rng, tree):
+    """units for some of the float leaves (the text form for input - to_string, str(CacheItem) - shows no unit, whatever
+    the unit is: format_value(value, unit=False))"""
+    return {pos_key(pos): rng.choice(UNITS) for pos, leaf in leaf_paths(tree)
+            if leaf['t'] in ('double', 'scaled') and rng.random() < 0.4}
 
 
 def gen_fmts(rng, tree):
@@ -570,11 +738,250 @@ def extra_valid(rng, tree):
         pool = ['"', "'", '\\', '\n', '\t', "'\"", '\\n', ' ', '{}', '(1,)', '\x7f', '\x01'] + (['ü', '€', '\U0001d11e', 'é', '\xa0'] if tree['utf8'] else [])
         for n in {tree['min'], min(tree['max'], tree['min'] + 3)}:
             out.append(''.join(rng.choice(pool)[:1] for _ in range(n)))
+        # content a text layer may treat specially (normalization, case mapping, white space, control / format characters)
+        for n in {min(tree['max'], max(tree['min'], 2)), min(tree['max'], tree['min'] + rng.choice([1, 4, 9]))}:
+            if n >= tree['min']:
+                out.append(gen_text(rng, n, tree['utf8'], special=0.7))
     elif t == 'blob':
         for n in {tree['min'], min(tree['max'], 300)}:
             out.append(bytes((i * 7 + rng.randrange(256)) % 256 for i in range(n)))
         if tree['min'] <= 256 <= tree['max']:
             out.append(bytes(range(256)))
+    return out
+
+
+# ---------------------------------------------------------------------------------------------
+# generators: the content of strings (every class of characters a text layer may treat specially)
+# ---------------------------------------------------------------------------------------------
+_UNI = None
+
+# ASCII characters a text layer may treat specially (StringType(isUTF8=False) takes ASCII only, without NUL)
+ASCII_SPECIAL = ['\r', '\x0b', '\x0c', '\x1c', '\x1d', '\x1e', '\x1f', '\x1b', '\x08', '\x7f', '#', '%', '{', '}', '[', ']', '(', ')', ',', ':',
+                 '\\', '"', "'", '`', '$', '&', '<', '>', ';', '=', '\t', '\n', ' ']
+
+
+def uni_classes():
+    """classes of Unicode characters / character sequences, derived from the `unicodedata` tables of the interpreter
+    (nothing is hand-picked): characters a normalization form changes (one class per form), the canonical / compatibility
+    decompositions of such characters (sequences which *compose*), combining marks in non-canonical order, characters
+    changed by a case mapping, white space, line and paragraph separators, format / private-use / unassigned code points
+    (incl. the non-characters), non-printable ones, and code points outside the BMP.  Surrogates are left out (they can
+    not travel to the Lean side: `dtcodec.encodable`)."""
+    global _UNI
+    if _UNI is not None:
+        return _UNI
+    import unicodedata as u
+    cl = {k: [] for k in ('not-NFC', 'not-NFD', 'not-NFKC', 'not-NFKD', 'case', 'space', 'format', 'private', 'unassigned',
+                          'combining', 'unprintable', 'astral', 'decomposed', 'misordered-marks')}
+    marks = {}
+    for cp in range(0x80, 0x110000):
+        if 0xD800 <= cp <= 0xDFFF:
+            continue
+        c = chr(cp)
+        cat = u.category(c)
+        if cat == 'Cn' and not (cp & 0xFFFE == 0xFFFE or 0xFDD0 <= cp <= 0xFDEF or cp < 0x3000):
+            continue                                  # of the unassigned: the non-characters and the holes of the low blocks only
+        for f in ('NFC', 'NFD', 'NFKC', 'NFKD'):
+            if not u.is_normalized(f, c):
+                cl['not-' + f].append(c)
+        if not u.is_normalized('NFD', c):
+            cl['decomposed'].append(u.normalize('NFD', c))
+        if c.lower() != c or c.upper() != c or c.casefold() != c:
+            cl['case'].append(c)
+        if c.isspace() or cat in ('Zl', 'Zp', 'Zs'):
+            cl['space'].append(c)
+        if cat == 'Cf':
+            cl['format'].append(c)
+        elif cat == 'Co':
+            if cp in (0xE000, 0xF8FF, 0xF0000, 0xFFFFD, 0x100000, 0x10FFFD) or cp % 4099 == 0:
+                cl['private'].append(c)
+        elif cat == 'Cn':
+            cl['unassigned'].append(c)
+        elif cat in ('Mn', 'Mc', 'Me'):
+            cl['combining'].append(c)
+            cc = u.combining(c)
+            if cc and cp < 0x1000:
+                marks.setdefault(cc, c)
+        if not c.isprintable() and cat not in ('Co', 'Cn'):
+            cl['unprintable'].append(c)
+        if cp > 0xFFFF and cat not in ('Co', 'Cn') and cp % 7 == 0:
+            cl['astral'].append(c)
+    ccs = sorted(marks)
+    for i, a in enumerate(ccs):
+        for b in ccs[i + 1:i + 4]:
+            cl['misordered-marks'].append('a' + marks[b] + marks[a])       # higher combining class first: NFC/NFD reorder
+    # Hangul: the syllables are composed / decomposed by rule, not by table - keep some of both
+    cl['decomposed'] += [u.normalize('NFD', chr(cp)) for cp in range(0xAC00, 0xD7A4, 389)]
+    _UNI = {k: v for k, v in cl.items() if v}
+    return _UNI
+
+
+def gen_text(rng, n, utf8, special=0.5):
+    """a string of exactly n characters: positions filled from the plain pools or - with probability `special` - from a
+    class of characters a text layer may treat specially (ASCII: control characters and the punctuation of the text forms;
+    UTF-8: a class of `uni_classes`)"""
+    out, k = [], 0
+    classes = uni_classes() if utf8 else None
+    names = sorted(classes) if utf8 else None
+    while k < n:
+        if rng.random() < special:
+            if utf8 and rng.random() < 0.8:
+                s = rng.choice(classes[rng.choice(names)])
+            else:
+                s = rng.choice(ASCII_SPECIAL)
+        else:
+            s = rng.choice(gen.ASCII_POOL + (gen.UTF8_POOL if utf8 else []))
+        if k + len(s) > n or '\0' in s:
+            s = 'a'
+        out.append(s)
+        k += len(s)
+    return ''.join(out)
+
+
+def text_classes(s):
+    """the classes (of `uni_classes`, by property - not by membership in the sampled lists) a string touches; for the
+    evidence counts"""
+    import unicodedata as u
+    out = set()
+    if not s.isascii():
+        for f in ('NFC', 'NFD', 'NFKC', 'NFKD'):
+            if not u.is_normalized(f, s):
+                out.add('not-' + f)
+        if any(ord(c) > 0xFFFF for c in s):
+            out.add('astral')
+        if any(u.category(c) in ('Cf', 'Co', 'Cn') for c in s):
+            out.add('format/private/unassigned')
+        if any(c.isspace() for c in s if ord(c) > 127):
+            out.add('unicode-space')
+        if s.lower() != s or s.upper() != s:
+            out.add('case')
+    if any(c in '\r\x0b\x0c\x1c\x1d\x1e\x1f\x1b\x08' for c in s):
+        out.add('ascii-control')
+    return out or {'plain'}
+
+
+def odd_keys(rng, tree):
+    """the same tree with, now and then, struct member names drawn like string contents (a member name travels as the key
+    of a JSON object and is printed as a dict key in the text form)"""
+    t = tree['t']
+    if t == 'array':
+        return dict(tree, elem=odd_keys(rng, tree['elem']))
+    if t == 'tuple':
+        return dict(tree, elems=[odd_keys(rng, e) for e in tree['elems']])
+    if t == 'struct':
+        members = [[k, odd_keys(rng, m)] for k, m in tree['members']]
+        optional = list(tree['optional'])
+        if rng.random() < 0.25:
+            i = rng.randrange(len(members))
+            new = gen_text(rng, rng.choice([1, 2, 3, 6]), True, special=0.7)
+            if new and new not in [k for k, _ in members]:
+                optional = [new if k == members[i][0] else k for k in optional]
+                members[i][0] = new
+        return dict(tree, members=members, optional=optional)
+    return tree
+
+
+# ---------------------------------------------------------------------------------------------
+# generators: big values (maximal containers, long strings / blobs: the text form and the JSON line get long)
+# ---------------------------------------------------------------------------------------------
+# lengths around the constants a buffer / display limit / length field typically has
+SIZES = [100, 127, 128, 200, 255, 256, 257, 500, 512, 999, 1000, 1001, 1023, 1024, 1025, 2000, 2048, 4095, 4096, 4097, 8192,
+         10000, 16384, 32767, 32768, 65535, 65536, 65537, 100000]
+
+
+def _size(rng, lo, hi, budget):
+    """a length in [lo, hi] (hi may be 'unlimited'), not above budget unless lo is: hi itself when it fits, else one of SIZES"""
+    top = min(hi, max(lo, budget))
+    if top == hi and rng.random() < 0.6:
+        return hi
+    c = [s for s in SIZES if lo <= s <= top]
+    if c and rng.random() < 0.8:
+        return rng.choice(c)
+    return top
+
+
+def gen_big(rng, tree, budget=3000):
+    """a valid value which is as large as the type allows, within a budget of (roughly) characters of text: arrays filled
+    to maxlen, strings and blobs long, every optional struct member present; None when the value set is (practically) empty"""
+    t = tree['t']
+    if t == 'string':
+        n = _size(rng, tree['min'], tree['max'], budget)
+        return gen_text(rng, n, tree['utf8'], special=rng.choice([0.0, 0.05, 0.3]))
+    if t == 'blob':
+        return gen.gen_bytes(rng, tree, _size(rng, tree['min'], tree['max'], budget // 3))
+    if t == 'array':
+        lo, hi = tree['min'], tree['max']
+        cap = max(lo, min(hi, max(1, budget // 12)))
+        n = hi if hi <= cap else rng.choice([cap, _size(rng, lo, cap, cap)])
+        items = [gen_big(rng, tree['elem'], max(8, budget // max(1, n))) for _ in range(n)]
+        if any(x is None for x in items):
+            return () if lo == 0 else None
+        return tuple(items)
+    if t == 'tuple':
+        items = [gen_big(rng, e, budget // len(tree['elems'])) for e in tree['elems']]
+        return None if any(x is None for x in items) else tuple(items)
+    if t == 'struct':
+        res = {}
+        for k, m in tree['members']:
+            v = gen_big(rng, m, budget // len(tree['members']))
+            if v is None:
+                if k in tree['optional']:
+                    continue
+                return None
+            res[k] = v
+        return res
+    if t == 'double' and rng.random() < 0.7:
+        # many digits: a number taking 17 significant digits (and a 3 digit exponent), inside the limits
+        lo, hi = gen._f(tree['min']), gen._f(tree['max'])
+        u = rng.random()
+        x = lo + (hi - lo) * u if math.isfinite(hi - lo) else (lo * (1 - u) + hi * u)
+        if lo <= x <= hi:
+            return x + 0.0
+    return gen.gen_valid(rng, tree)
+
+
+def can_be_big(tree):
+    """does the type have values with a long text form (an array of more than 8 elements, a string / blob of more than
+    100 characters / bytes, an enum member with a long name)?"""
+    t = tree['t']
+    if t == 'array':
+        return tree['max'] > 8 or can_be_big(tree['elem'])
+    if t == 'tuple':
+        return any(can_be_big(e) for e in tree['elems'])
+    if t == 'struct':
+        return len(tree['members']) > 8 or any(can_be_big(m) for _, m in tree['members'])
+    if t in ('string', 'blob'):
+        return tree['max'] > 100
+    if t == 'enum':
+        return any(len(n) > 100 for n, _ in tree['members'])
+    return False
+
+
+def big_trees(rng):
+    """types whose values can be large: every container kind around every leaf kind, with the widest limits"""
+    fj = gen.fj
+    db = {'t': 'double', 'min': fj(-gen.FMAX), 'max': fj(gen.FMAX), 'ar': fj(0.0), 'rr': fj(1.2e-7)}
+    it = {'t': 'int', 'min': -2 ** 63, 'max': 2 ** 63}
+    sc = {'t': 'scaled', 'scale': fj(1e-3), 'min': fj(-1e9), 'max': fj(1e9), 'ar': fj(1e-3), 'rr': fj(1.2e-7)}
+    st = {'t': 'string', 'min': 0, 'max': gen.UNLIMITED, 'utf8': True}
+    sa = {'t': 'string', 'min': 0, 'max': gen.UNLIMITED, 'utf8': False}
+    s9 = {'t': 'string', 'min': 0, 'max': rng.choice([255, 1024, 5000]), 'utf8': True}
+    bl = {'t': 'blob', 'min': 0, 'max': rng.choice([1024, 4096, 100000])}
+    en = {'t': 'enum', 'members': [['idle', 0], ['n' * rng.choice(SIZES[:20]), 1], ['busy busy', 2]]}
+    bo = {'t': 'bool'}
+    leaves = [db, it, sc, st, sa, s9, bl, en, bo]
+    out = [st, sa, s9, bl, en]
+    for leaf in leaves:
+        out.append({'t': 'array', 'elem': leaf, 'min': 0, 'max': rng.choice([30, 100, 100, 256, 1000])})
+    out.append({'t': 'array', 'elem': {'t': 'array', 'elem': rng.choice([db, it, st]), 'min': 0, 'max': 30}, 'min': 0, 'max': 30})
+    out.append({'t': 'tuple', 'elems': [st, sa, bl]})
+    out.append({'t': 'tuple', 'elems': [rng.choice(leaves) for _ in range(rng.choice([12, 40]))]})
+    out.append({'t': 'struct', 'members': [['text', st], ['data', {'t': 'array', 'elem': db, 'min': 0, 'max': 100}]], 'optional': ['data'],
+                'client': False})
+    out.append({'t': 'struct', 'members': [['member_%02d' % i, rng.choice([db, it, bo, en, s9])] for i in range(rng.choice([12, 40]))],
+                'optional': [], 'client': False})
+    out.append({'t': 'array', 'elem': {'t': 'struct', 'members': [['a', it], ['b', db], ['c', st]], 'optional': ['c'], 'client': False},
+                'min': 0, 'max': 60})
     return out
 
 
@@ -657,6 +1064,12 @@ def catalogue_trees():
         {'t': 'struct', 'members': [['a', en], ['b', bl]], 'optional': ['a', 'b'], 'client': False},
         {'t': 'array', 'elem': en, 'min': 0, 'max': 4},
         {'t': 'tuple', 'elems': [db, st, bl]},
+        # shapes of the convenience classes LimitsType / StatusType / TextType (taken for half of the cases: `gen_variants`)
+        {'t': 'tuple', 'elems': [db, db]}, {'t': 'tuple', 'elems': [sc, sc]}, {'t': 'tuple', 'elems': [i5, i5]},
+        {'t': 'tuple', 'elems': [{'t': 'enum', 'members': [['IDLE', 100], ['BUSY', 300], ['ERROR', 400]]},
+                                 {'t': 'string', 'min': 0, 'max': gen.UNLIMITED, 'utf8': False}]},
+        {'t': 'struct', 'members': [['limits', {'t': 'tuple', 'elems': [db, db]}],
+                                    ['text', {'t': 'string', 'min': 0, 'max': 2000, 'utf8': False}]], 'optional': ['text'], 'client': False},
     ]
 
 
@@ -684,34 +1097,46 @@ def _sub_fmts(fmts, i):
 
 
 def sub_cases(case):
-    tree, v, fmts = case['tree'], case['v'], case.get('fmts', {})
+    tree, v, fmts, units, cls = case['tree'], case['v'], case.get('fmts', {}), case.get('units') or {}, case.get('cls') or {}
     t = tree['t']
     out = []
     if t == 'array' and isinstance(v, dict) and 't' in v:
         for x in v['t']:
-            out.append({'tree': tree['elem'], 'v': x, 'fmts': _sub_fmts(fmts, 0)})
+            out.append({'tree': tree['elem'], 'v': x, 'fmts': _sub_fmts(fmts, 0), 'units': _sub_fmts(units, 0), 'cls': _sub_fmts(cls, 0)})
     elif t == 'tuple' and isinstance(v, dict) and 't' in v:
         for i, (e, x) in enumerate(zip(tree['elems'], v['t'])):
-            out.append({'tree': e, 'v': x, 'fmts': _sub_fmts(fmts, i)})
+            out.append({'tree': e, 'v': x, 'fmts': _sub_fmts(fmts, i), 'units': _sub_fmts(units, i), 'cls': _sub_fmts(cls, i)})
     elif t == 'struct' and isinstance(v, dict) and 'd' in v:
         names = [k for k, _ in tree['members']]
         md = dict((k, m) for k, m in tree['members'])
         for k, x in v['d']:
             if k in md:
-                out.append({'tree': md[k], 'v': x, 'fmts': _sub_fmts(fmts, names.index(k))})
+                out.append({'tree': md[k], 'v': x, 'fmts': _sub_fmts(fmts, names.index(k)), 'units': _sub_fmts(units, names.index(k)), 'cls': _sub_fmts(cls, names.index(k))})
     return out
 
 
 def judge_case(ctx, case):
     req, impl, libfail = eval_case(case)
-    ans = ctx.driver.batch([req])[0]
+    ans = batch_nl(ctx.driver, [req])[0]
     return ans, impl
+
+
+SHRINK = {'deadline': None}
+
+
+def _shrink_time_left():
+    import time
+    return SHRINK['deadline'] is None or time.time() < SHRINK['deadline']
 
 
 def shrink(ctx, case, clause):
     for _ in range(8):
+        if not _shrink_time_left():
+            return case
         smaller = None
-        for sc in sub_cases(case):
+        for sc in sub_cases(case)[:16]:
+            if not _shrink_time_left():
+                break
             try:
                 ans, _ = judge_case(ctx, sc)
             except Exception:
@@ -725,7 +1150,7 @@ def shrink(ctx, case, clause):
     # containers: fewer elements
     tree, v = case['tree'], case['v']
     if tree['t'] == 'array' and isinstance(v, dict) and len(v.get('t', [])) > max(1, tree['min']):
-        for x in v['t']:
+        for x in v['t'][:20]:
             cand = dict(case, v={'t': [x] * max(1, tree['min'])})
             try:
                 ans, _ = judge_case(ctx, cand)
@@ -733,7 +1158,73 @@ def shrink(ctx, case, clause):
                 continue
             if clause in ans.get('judge', []):
                 return cand
+    # a failure that needs a large value: halve arrays / strings / blobs anywhere in the value while it still fails
+    calls = 0
+    progress = True
+    while progress and calls < 60 and _shrink_time_left():
+        progress = False
+        for vj in smaller_values(case['tree'], case['v']):
+            if not _shrink_time_left():
+                break
+            cand = dict(case, v=vj)
+            calls += 1
+            try:
+                ans, _ = judge_case(ctx, cand)
+            except Exception:
+                continue
+            if clause in ans.get('judge', []):
+                case = cand
+                progress = True
+                break
+            if calls >= 60:
+                break
     return case
+
+
+def smaller_values(tree, vj):
+    """protocol values like vj with one array / string / blob cut down (a half, three quarters, one element less), the
+    largest cuts first; the minimum lengths of the type are respected (an invalid value is not judged anyway)"""
+    t = tree['t']
+
+    def cuts(n, lo):
+        out = []
+        for m in (n // 2, n - n // 4, n - 1):
+            if lo <= m < n and m not in out:
+                out.append(m)
+        return out
+    if t == 'string' and isinstance(vj, str):
+        if vj != 'a' * len(vj):
+            yield 'a' * len(vj)                 # the content does not matter
+        for m in cuts(len(vj), tree['min']):
+            yield vj[:m]
+            if m == len(vj) // 2:
+                yield vj[len(vj) - m:]
+    elif t == 'blob' and isinstance(vj, dict) and 'b' in vj:
+        for m in cuts(len(vj['b']) // 2, tree['min']):
+            yield {'b': vj['b'][:2 * m]}
+    elif t == 'array' and isinstance(vj, dict) and 't' in vj:
+        items = vj['t']
+        for m in cuts(len(items), tree['min']):
+            yield {'t': items[:m]}
+            if m == len(items) // 2:
+                yield {'t': items[len(items) - m:]}
+        for i, x in enumerate(items[:8]):
+            for y in smaller_values(tree['elem'], x):
+                yield {'t': items[:i] + [y] + items[i + 1:]}
+    elif t == 'tuple' and isinstance(vj, dict) and 't' in vj:
+        items = vj['t']
+        for i, (e, x) in enumerate(zip(tree['elems'], items)):
+            for y in smaller_values(e, x):
+                yield {'t': items[:i] + [y] + items[i + 1:]}
+    elif t == 'struct' and isinstance(vj, dict) and 'd' in vj:
+        md = dict((k, m) for k, m in tree['members'])
+        items = vj['d']
+        for i, (k, x) in enumerate(items):
+            if k in tree['optional']:
+                yield {'d': items[:i] + items[i + 1:]}
+            if k in md:
+                for y in smaller_values(md[k], x):
+                    yield {'d': items[:i] + [[k, y]] + items[i + 1:]}
 
 
 def signature(clause, case):
@@ -743,19 +1234,22 @@ def signature(clause, case):
 
 
 def describe(case, impl):
-    dt = build_dt(case['tree'], case.get('fmts', {}))
+    dt = build_dt(case['tree'], case.get('fmts', {}), case.get('units'), case.get('cls'))
     v = dtcodec.json_to_py(case['v'])
+
+    def short(a):
+        return a if len(a) <= 200 else '%s...<%d characters>...%s' % (a[:120], len(a), a[-40:])
 
     def show(k):
         o = impl.get(k)
         if isinstance(o, dict) and 'ok' in o:
             x = o['ok']
             if isinstance(x, dict) and ('bare' in x or 'syn' in x):
-                return json.dumps(x, ensure_ascii=False)
+                return short(json.dumps(x))
             try:
-                return repr(dtcodec.json_to_py(x))
+                return short(ascii(dtcodec.json_to_py(x)))
             except Exception:
-                return json.dumps(x)
+                return short(json.dumps(x))
         return json.dumps(o)
     real = {}
     try:
@@ -763,7 +1257,8 @@ def describe(case, impl):
     except Exception as e:
         real['to_string'] = type(e).__name__
     what = ', '.join(f'{k}={show(k)}' for k in KEYS if k != 'cdt' and impl.get(k) is not None)
-    return f'{dt!r} value={v!r} to_string={real["to_string"]!r}: {what}'[:1500]
+    n = len(real['to_string'])
+    return f'{short(ascii(dt))} value={short(ascii(v))} to_string={short(ascii(real["to_string"]))} ({n} characters): {what}'[:3000]
 
 
 # ---------------------------------------------------------------------------------------------
@@ -772,10 +1267,17 @@ def run(ctx):
     res.rule = ('(tree, format strings, valid value) triples on the real datatype classes: export_value -> encode_msg_frame '
                 '(json.dumps) -> decode_msg (json.loads) -> import_value on the node datatype and on get_datatype(json round trip of '
                 'export_datatype()); to_string / from_string / to_string; SecopClient.updateValue -> str(CacheItem) -> '
-                'setParameterFromString against a recording request() -> import_value of the sent value on the node datatype. '
+                'setParameterFromString against a recording request() -> import_value of the sent value on the node datatype; '
+                'execCommand(cached value) -> the do line -> import_value / export_value on the node datatype -> the done line '
+                '-> the result execCommand returns; str(cache entry) after an error update. '
                 'Values from the value set itself: limits, grid points far from zero (incl. the region where the grid law fails), '
                 'empty/maximal containers, every enum member, quote/backslash/newline/non-ASCII strings, all byte values, structs '
-                'without optional members and in shuffled order, one-member tuples.  Non-trivial = a valid value (Lean validB) of a '
+                'without optional members and in shuffled order, one-member tuples; values as large as the type allows (arrays '
+                'filled to maxlen, strings / blobs / enum names of the lengths around 2^k and 10^k up to 100 000: text forms and '
+                'lines of more than 1000 / 10 000 / 100 000 characters); string contents and struct member names from every class '
+                'of characters a text layer may treat specially (unicodedata: unstable under NFC / NFD / NFKC / NFKD, composing '
+                'sequences, misordered marks, case mappings, separators, format / private-use / unassigned, astral; ASCII control '
+                'characters); units on float leaves; TextType / LimitsType / StatusType.  Non-trivial = a valid value (Lean validB) of a '
                 'container type, or of a leaf type other than bool')
     rng = ctx.rng
     big = ctx.tier == 'thorough' or ctx.escalated
@@ -789,9 +1291,16 @@ def run(ctx):
     while len(trees) < ntrees:
         d = rng.choice([1, 2, 2, 3, 3, 3] + ([4, 5] if big else []))
         trees.append((gen.gen_tree(rng, min(d, maxdepth)), 'gen'))
+    # types whose values can be large (maximal containers, long strings / blobs / names): the text form and the JSON line
+    # of such a value are long
+    nbig = ctx.budget(16, 400)
+    bigs = []
+    while len(bigs) < nbig:
+        bigs += big_trees(rng)
+    trees += [(t, 'big') for t in bigs[:max(nbig, 24)]]
     for tree0, origin in trees:
         if origin == 'gen':
-            tree0 = blank_names(rng, tree0)
+            tree0 = odd_keys(rng, blank_names(rng, tree0))
         try:
             tree = dtcodec.dt_to_tree(dtcodec.tree_to_dt(tree0))
         except Exception as e:
@@ -804,29 +1313,45 @@ def run(ctx):
         for k in set(dtcodec.tree_kinds(tree)):
             res.count('tree.contains=' + k)
         fmts = gen_fmts(rng, tree)
+        units = gen_units(rng, tree)
+        cls = gen_variants(rng, tree)
+        for c in cls.values():
+            res.count('tree.class-variant=' + c)
+        res.count('tree.float-leaf-with-unit', len(units))
         for f in fmts.values():
             res.count('fmtstr=' + (f if f == '%g' else '%.<n>' + f[-1]))
             res.count('fmtstr.digits=' + ('default' if f == '%g' else '0-2' if int(f[2:-1]) <= 2 else '3-9' if int(f[2:-1]) <= 9
                                           else '10-17'))
-        for v in gen_values(rng, tree, per_tree):
+        values = gen_values(rng, tree, per_tree if origin != 'big' else 2)
+        if can_be_big(tree):
+            res.count('tree.can-be-big')
+            for _ in range(3 if origin == 'big' else 1):
+                # budget: about the number of characters of the text form (mostly around the usual limits, now and then huge)
+                v = gen_big(rng, tree, rng.choice([300, 1200, 1200, 3000, 3000, 6000, 12000] + ([150000] if rng.random() < 0.15 else [])))
+                if v is not None:
+                    values.append(v)
+        for v in values:
             if not dtcodec.encodable(v):
                 continue
-            cases.append(({'tree': tree, 'v': dtcodec.py_to_json(v), 'fmts': fmts}, origin))
+            cases.append(({'tree': tree, 'v': dtcodec.py_to_json(v), 'fmts': fmts, 'units': units, 'cls': cls}, origin))
 
     CH = 10000
     shrunk = 0
+    import time
+    shrink_budget = 40.0 if ctx.tier == 'quick' and not ctx.escalated else 300.0      # seconds; shrinking large failing values costs time
     libfails = 0
     seen_unshrunk = set()
     for start in range(0, len(cases), CH):
         chunk = cases[start:start + CH]
-        reqs, impls, lfs = [], [], []
+        reqs, impls, lfs, sts = [], [], [], []
         for c, _ in chunk:
             req, impl, libfail = eval_case(c)
             reqs.append(req)
             impls.append(impl)
             lfs.append(libfail)
-        answers = ctx.driver.batch(reqs)
-        for (c, origin), impl, libfail, ans in zip(chunk, impls, lfs, answers):
+            sts.append(dict(LAST_STATS))
+        answers = batch_nl(ctx.driver, reqs)
+        for (c, origin), impl, libfail, st, ans in zip(chunk, impls, lfs, sts, answers):
             if 'driver_error' in ans:
                 raise RuntimeError(f'driver error {ans} on {json.dumps(c)[:400]}')
             res.evaluations += 1
@@ -841,6 +1366,13 @@ def run(ctx):
                 continue
             res.traces += 1
             res.count('valid.root=' + t)
+            for key, n in sorted(st.items()):
+                # length of the text form (to_string) / of the JSON line (encode_msg_frame) of the value
+                res.count('%s.length=%s' % (key, '0-100' if n <= 100 else '101-1000' if n <= 1000 else '1001-10000' if n <= 10000
+                                            else '>10000'))
+            strs = [x for x in other_leaves(c['tree'], dtcodec.json_to_py(c['v'])) if isinstance(x, str)]
+            for k in set().union(*[text_classes(x) for x in strs]) if strs else ():
+                res.count('string-content=' + k)
             res.count('canon=%s' % ans['canon'])
             res.count('node-text-judged=%s' % (ans['canon'] and ans['complete'] and ans['fmtlaw']))
             res.count('scaled-limits-on-grid=%s' % ans.get('limits'))
@@ -859,7 +1391,7 @@ def run(ctx):
                 res.count('precondition.fmt-law-fails(text not judged)')
             if isinstance(impl.get('cdt'), dict) and 'err' in impl['cdt']:
                 res.count('client-datatype-not-rebuilt(client clauses not judged; C03)')
-            for k in ('exp', 'node', 'client', 'back', 'cback', 'sent', 'cnode', 'vsent', 'vnode'):
+            for k in ('exp', 'node', 'client', 'back', 'cback', 'sent', 'cnode', 'vsent', 'vnode', 'xsent', 'xnode', 'xres'):
                 o = impl.get(k)
                 res.count(f'{k}=' + ('none' if o is None else 'ok' if 'ok' in o else 'err:' + o['err']))
             if t != 'bool':
@@ -891,7 +1423,10 @@ def run(ctx):
                 seen_unshrunk.add((clause, t))
                 if shrunk < 60:
                     shrunk += 1
+                    t0 = time.time()
+                    SHRINK['deadline'] = t0 + max(0.0, shrink_budget)
                     small = shrink(ctx, c, clause)
+                    shrink_budget -= time.time() - t0
                 _, simpl, _ = eval_case(small)
                 res.violations.append({'sig': signature(clause, small), 'what': f'{clause}: ' + describe(small, simpl),
                                        'case': small, 'detail': {'clause': clause, 'original': c if small is not c else None}})
@@ -904,8 +1439,8 @@ def run(ctx):
 def replay(ctx, rp):
     case = rp['case']
     req, impl, libfail = eval_case(case)
-    ans = ctx.driver.batch([req])[0]
-    dt = build_dt(case['tree'], case.get('fmts', {}))
+    ans = batch_nl(ctx.driver, [req])[0]
+    dt = build_dt(case['tree'], case.get('fmts', {}), case.get('units'), case.get('cls'))
     v = dtcodec.json_to_py(case['v'])
     print('datatype :', repr(dt))
     print('value    :', repr(v))
